@@ -6,7 +6,7 @@ line-protocol ops for C15
 
 * `c15hist` — a history executed by the real code (`init`, then per step the operation and the real outcome).
   For every step, from the *real* project before the step: the model's outcome, whether it agrees with the
-  real outcome (for `select`: for some iteration order of the service map), and the clauses of
+  real outcome (exactly), and the clauses of
   `Spec/Select.lean` that the real before/after pair violates.
 -/
 open Lean
@@ -120,11 +120,13 @@ def perms {α} : List α → List (List α)
   | [] => [[]]
   | x :: xs => (perms xs).flatMap (insertEverywhere x)
 
-/-- does some iteration order of the service map make the model produce `q`? (bounded: ≤ 7 services) -/
+/-- diagnosis only: does the *pre-fix* loop, for some iteration order of the service map, produce `q`?
+(bounded: ≤ 7 services).  Since the `fix:` commit the model is order independent (`select_perm`) and the
+comparison is exact; a disagreement labelled `pre-fix-order` says the old behaviour is back. -/
 def selectSomeOrder (p : Proj) (names : List String) (pol : Policy) (q : Proj) : Bool :=
   if p.services.length > 7 then false
   else (perms p.services).any fun l =>
-    match withSelectedServices { p with services := l } names pol with
+    match withSelectedServicesPre { p with services := l } names pol with
     | .ok m => canon m == q
     | _ => false
 
@@ -145,6 +147,7 @@ def specViolations (p : Proj) (o : Op) (r : Option Proj) : List String :=
     clause "resources" (decide (sameResources p q))
   | .disable ns, some q =>
     clause "conserved" (decide (Conserved p q)) ++ clause "disable" (decide (DisableSpec p ns q)) ++
+    clause "disable-moved" (decide (DisableMovedSpec p ns q)) ++
     clause "resources" (decide (sameResources p q))
   | .select ns pol, r =>
     if ns.isEmpty then clause "select-all" (r == some p)
@@ -153,6 +156,7 @@ def specViolations (p : Proj) (o : Op) (r : Option Proj) : List String :=
       | some S, some q =>
         clause "closure-saturated" (decide (Closed p.services pol ns S)) ++
         clause "conserved" (decide (Conserved p q)) ++ clause "select" (decide (SelectSpec p S q)) ++
+        clause "select-moved" (decide (SelectMovedSpec p S q)) ++
         clause "resources" (decide (sameResources p q))
       | none, some _ => ["select-accepts-missing"]
       | some _, none => ["select-rejects"]
@@ -174,7 +178,7 @@ def stepJson (p : Proj) (o : Op) (real : Option (Option Proj)) : Json :=
     | .ok mq, some (some q) =>
       if canon mq == q then (true, "exact")
       else match o with
-        | .select ns pol => if selectSomeOrder p ns pol q then (true, "order") else (false, "none")
+        | .select ns pol => if selectSomeOrder p ns pol q then (false, "pre-fix-order") else (false, "none")
         | _ => (false, "none")
     | .err, some none => (true, "exact")
     | _, _ => (false, "none")
